@@ -12,15 +12,18 @@
 (***************************************************************************)
 EXTENDS Integers, Sequences, FiniteSets, TLC
 
-CONSTANTS RSize, MaxLen, WithIf
+CONSTANTS RSize, MaxLen, WithIf,
+          NoAssign    \* TRUE: only ++ / -- / IOWrite / late declarations (no `=` anywhere)
 
-Vars == {"a", "b", "c"}
+TopVars == {"a", "b", "c"}          \* declared at the top of main
+LateVars == {"d", "e"}              \* declared by a statement in the middle of the program
+Vars == TopVars \cup LateVars
 Outs == {0, 1}
 Mod == 2 ^ RSize
 Consts == {0, 1, 2, 3, Mod - 1, Mod \div 2}
 
-VARIABLES prog, env, outs
-vars == <<prog, env, outs>>
+VARIABLES prog, env, outs, declared
+vars == <<prog, env, outs, declared>>
 
 Atom == [k : {"const"}, n : Consts] \cup [k : {"var"}, v : Vars]
 Expr == Atom \cup [k : {"add", "mul"}, l : Atom, r : Atom]
@@ -45,23 +48,39 @@ Do(s, en, os) ==
     [] s.k = "dec" -> [env |-> [en EXCEPT ![s.v] = (@ + Mod - 1) % Mod], outs |-> os]
     [] s.k = "out" -> [env |-> en, outs |-> Append(os, <<s.o, Eval(s.e, en)>>)]
 
-Init == prog = <<>> /\ env = [v \in Vars |-> 0] /\ outs = <<>>
+Init == prog = <<>> /\ env = [v \in Vars |-> 0] /\ outs = <<>> /\ declared = TopVars
+
+\* the variables a statement mentions
+AtomVars(e) == IF e.k = "var" THEN {e.v} ELSE {}
+ExprVars(e) == IF e.k \in {"add", "mul"} THEN AtomVars(e.l) \cup AtomVars(e.r) ELSE AtomVars(e)
+StmtVars(s) == CASE s.k = "set" -> {s.v} \cup ExprVars(s.e) [] s.k \in {"inc", "dec"} -> {s.v} [] s.k = "out" -> ExprVars(s.e)
+                 [] s.k = "ifeq" -> AtomVars(s.l) \cup AtomVars(s.r) \cup (IF s.t.k = "out" THEN ExprVars(s.t.e) ELSE {s.t.v})
+                                    \cup (IF s.f.k = "out" THEN ExprVars(s.f.e) ELSE {s.f.v})
+Allowed(s) == StmtVars(s) \subseteq declared /\ (NoAssign => s.k \in {"inc", "dec", "out"})
+
+\* `var reg_v T` in the middle of the program: the variable exists from here on, with value 0
+AddDecl(v) ==
+  /\ Len(prog) < MaxLen /\ v \in LateVars \ declared
+  /\ prog' = Append(prog, [k |-> "decl", v |-> v])
+  /\ declared' = declared \cup {v} /\ env' = [env EXCEPT ![v] = 0] /\ outs' = outs
 
 AddSimple(s) ==
-  /\ Len(prog) < MaxLen
+  /\ Len(prog) < MaxLen /\ Allowed(s) /\ UNCHANGED declared
   /\ prog' = Append(prog, s)
   /\ LET d == Do(s, env, outs) IN env' = d.env /\ outs' = d.outs
 
 AddIf(s) ==
-  /\ Len(prog) < MaxLen
+  /\ Len(prog) < MaxLen /\ Allowed(s) /\ ~NoAssign /\ UNCHANGED declared
   /\ prog' = Append(prog, s)
   /\ LET d == IF Eval(s.l, env) = Eval(s.r, env) THEN Do(s.t, env, outs) ELSE Do(s.f, env, outs)
      IN  env' = d.env /\ outs' = d.outs
 
 \* (written with an outer choice so that the simulator, which picks uniformly among the
 \* sub-actions it can split Next into, chooses an if statement about once in four steps)
-Next == \E w \in 1 .. 4 :
-          IF w = 1 /\ WithIf THEN \E s \in IfStmt : AddIf(s) ELSE \E s \in Simple : AddSimple(s)
+Next == \E w \in 1 .. 6 :
+          IF w = 1 /\ WithIf THEN \E s \in IfStmt : AddIf(s)
+          ELSE IF w = 2 THEN \E v \in LateVars : AddDecl(v)
+          ELSE \E s \in Simple : AddSimple(s)
 Spec == Init /\ [][Next]_vars
 
 \* sanity of the semantics
